@@ -121,6 +121,27 @@ Example c04_nested_example :
   codes (nested_result lib [111] args) = [60; 32; 91; 120; 93; 32; 47; 91; 121; 93; 62].
 Proof. split; vm_compute; reflexivity. Qed.
 
+(* "Body encode -> substitute -> recursive expand with a new parent frame": a template whose body holds, besides text and
+   parameter references, calls to other templates with plain names and arguments.  The call gives the body with its
+   parameters substituted and every call in it replaced by that call's result (FlatCall.body_calls_result); one trailing
+   line break of each argument of such a call is dropped first (the known finding c04:trailing-newline-dropped, visible
+   in FlatCall.body_subst). *)
+Theorem c04_calls_in_a_template_body_are_expanded_after_substitution :
+  forall pfnames lib opts name args,
+    body_calls_call_ok pfnames lib name args = true -> o_tfn opts = [] -> o_pfn opts = [] ->
+    exists F, forall fuel, (F <= fuel)%nat ->
+      expand_T pfnames lib opts fuel [FTitle] true (chars name :: args) = Some (body_calls_result lib name args).
+Proof. exact body_calls_call. Qed.
+Print Assumptions c04_calls_in_a_template_body_are_expanded_after_substitution.
+
+(* {{o|x}} with Template:o = "<{{i|a}}{{{1}}}>" and Template:i = "[{{{1}}}]": "<[a]x>" *)
+Example c04_body_calls_example :
+  let lib := [mktpl [79] [Ch 60; T [chars [105]; chars [97]]; A [chars [49]]; Ch 62] false;
+              mktpl [73] [Ch 91; A [chars [49]]; Ch 93] false] in
+  body_calls_call_ok [] lib [111] [chars [120]] = true /\
+  codes (body_calls_result lib [111] [chars [120]]) = [60; 91; 97; 93; 120; 62].
+Proof. split; vm_compute; reflexivity. Qed.
+
 (* #if with plain arguments, wherever it stands (any expansion path below the depth limit, with or without full
    expansion): the second argument when the first is not blank, else the third; trimmed; absent arguments are empty *)
 Theorem c04_if_with_plain_arguments :
